@@ -40,6 +40,7 @@ type collCase struct {
 	Init     []int           `json:"init"`
 	Ops      [][]interface{} `json:"ops"`
 	Distinct bool            `json:"distinct"` // the pool has pairwise distinct identity (the property's premise)
+	Total    uint            `json:"total,omitempty"` // the totalItems a collection struct starts with (a collection decoded from a remote document reports one)
 }
 
 var collKinds = []string{"ItemCollection", "IRIs", "Collection", "OrderedCollection", "CollectionPage", "OrderedCollectionPage"}
@@ -50,7 +51,11 @@ type collHandle struct {
 	ci   ap.CollectionInterface
 }
 
-func newColl(kind string) collHandle {
+func newColl(kind string, total ...uint) collHandle {
+	var tot uint
+	if len(total) > 0 {
+		tot = total[0]
+	}
 	switch kind {
 	case "ItemCollection":
 		c := make(ap.ItemCollection, 0)
@@ -59,13 +64,13 @@ func newColl(kind string) collHandle {
 		c := make(ap.IRIs, 0)
 		return collHandle{kind, &c}
 	case "Collection":
-		return collHandle{kind, &ap.Collection{ID: "https://example.com/col", Type: ap.CollectionType}}
+		return collHandle{kind, &ap.Collection{ID: "https://example.com/col", Type: ap.CollectionType, TotalItems: tot}}
 	case "OrderedCollection":
-		return collHandle{kind, &ap.OrderedCollection{ID: "https://example.com/col", Type: ap.OrderedCollectionType}}
+		return collHandle{kind, &ap.OrderedCollection{ID: "https://example.com/col", Type: ap.OrderedCollectionType, TotalItems: tot}}
 	case "CollectionPage":
-		return collHandle{kind, &ap.CollectionPage{ID: "https://example.com/col", Type: ap.CollectionPageType}}
+		return collHandle{kind, &ap.CollectionPage{ID: "https://example.com/col", Type: ap.CollectionPageType, TotalItems: tot}}
 	case "OrderedCollectionPage":
-		return collHandle{kind, &ap.OrderedCollectionPage{ID: "https://example.com/col", Type: ap.OrderedCollectionPageType}}
+		return collHandle{kind, &ap.OrderedCollectionPage{ID: "https://example.com/col", Type: ap.OrderedCollectionPageType, TotalItems: tot}}
 	}
 	panic("kind")
 }
@@ -125,7 +130,7 @@ func runCollCase(cs collCase) (res map[string]interface{}, viol string) {
 	for i, b := range cs.Pool {
 		items[i] = b.item()
 	}
-	h := newColl(cs.Kind)
+	h := newColl(cs.Kind, cs.Total)
 	var ref []int // reference: insertion-ordered set of pool indices
 	has := func(x int) bool {
 		for _, y := range ref {
@@ -258,6 +263,15 @@ var c13OpaquePool = []bareItem{
 	{"actor", "did:example:123456789abcdefghi", "Person"},
 }
 
+// ids with letters whose lower-case form and case folding disagree (the dotted capital I of Turkish lowers
+// to "i" but folds to itself): pairwise distinct
+var c13DottedPool = []bareItem{
+	{"object", "https://example.com/users/İnci", "Note"},
+	{"object", "https://example.com/users/inci", "Note"},
+	{"iri", "https://example.com/tags/İzmir", ""},
+	{"actor", "https://example.com/tags/izmir", "Person"},
+}
+
 // pools whose members are NOT pairwise distinct (scheme/case/slash variants, iri vs object of one id)
 var c13LoosePools = [][]bareItem{
 	{{"iri", "https://example.com/a", ""}, {"iri", "http://EXAMPLE.com/a/", ""}, {"object", "https://example.com/a", "Note"}, {"object", "https://example.com/b", "Note"}},
@@ -321,8 +335,15 @@ func init() {
 					pool = c13RichPool
 				} else if i%4 == 3 {
 					pool = c13OpaquePool
+					if i%8 == 7 {
+						pool = c13DottedPool
+					}
 				}
-				c13Case(c, collCase{Kind: kind, Pool: pool, Init: init, Ops: h, Distinct: true})
+				cs := collCase{Kind: kind, Pool: pool, Init: init, Ops: h, Distinct: true}
+				if i%5 == 4 && kind != "ItemCollection" && kind != "IRIs" {
+					cs.Total = uint(1 + c.R.Intn(5)) // the collection already reports a total: Count still counts members
+				}
+				c13Case(c, cs)
 			}
 			for i := 0; i < c.N(600, 20000); i++ {
 				pool := c13LoosePools[c.R.Intn(len(c13LoosePools))]
